@@ -9213,7 +9213,8 @@ let rec main_loop u cfg = function
                      ebind next_char (fun ch ->
                        ebind (edit_insert u cfg ch (S O)) (fun _ ->
                          main_loop u cfg f))
-                   | CSuspend -> main_loop u cfg f
+                   | CSuspend ->
+                     ebind (refresh_line u cfg) (fun _ -> main_loop u cfg f)
                    | _ ->
                      ebind (execute u cfg c2) (fun st ->
                        match st with
@@ -9616,12 +9617,20 @@ let sql_reopen h =
     q_sess = O; q_max = h.q_cfg_max; q_igs = h.q_igs; q_igd = h.q_igd;
     q_cfg_max = h.q_cfg_max }
 
+(** val sql_reopen_cfg : sqlh -> bool -> bool -> sqlh **)
+
+let sql_reopen_cfg h igs igd =
+  { q_rows = h.q_rows; q_nsess = h.q_nsess; q_cache = (max_id h.q_rows);
+    q_sess = O; q_max = h.q_cfg_max; q_igs = igs; q_igd = igd; q_cfg_max =
+    h.q_cfg_max }
+
 type sop =
 | SAdd of str
 | SGet of nat * sdir
 | SLen
 | SSetMax of nat
 | SReopen
+| SReopenCfg of bool * bool
 
 type sout =
 | SoBool of bool
@@ -9637,6 +9646,7 @@ let sql_step u h = function
 | SLen -> (h, (SoNat h.q_cache))
 | SSetMax n0 -> ((sql_set_max h n0), SoUnit)
 | SReopen -> ((sql_reopen h), SoUnit)
+| SReopenCfg (igs, igd) -> ((sql_reopen_cfg h igs igd), SoUnit)
 
 (** val sql_run : uData -> sqlh -> sop list -> sqlh * sout list **)
 
